@@ -79,8 +79,9 @@ def plan(tier, seed, complete=False):
         settings = ["S:all"]
     # settings are split by rule so that shards balance
     return {
-        "items": [f"E:{i}" for i in idx] + [f"S:{k}" for k in range(46)],
-        "zones": {"precedence lattice": {"universe": len(pc), "run": len(idx)}, "settings": {"rules": 46}},
+        "items": [f"E:{i}" for i in idx] + [f"S:{k}" for k in range(46)] + [f"A:{k}" for k in range(46)] + [f"X:{k}" for k in range(len(strict_cases()))],
+        "zones": {"precedence lattice": {"universe": len(pc), "run": len(idx)}, "settings": {"rules": 46}, "addressing (every identifier of every rule x 4 layers)": {"rules": 46},
+                  "strict-mode sources": {"universe": len(strict_cases()), "run": len(strict_cases())}},
         "exhaustive": True,
         "rule": "precedence: every {unset,true,false} assignment to the 4 layers x {none,-e,-d} x naming {id, alias...} x 2 rules x 3 file formats, "
         "checked against the executable precedence model through `plugins list` and a probe scan; settings: every configuration item of every rule x "
@@ -299,6 +300,128 @@ def run_settings(k, sb, app, pm, R):
     return out
 
 
+# ------------------------------------------------------------------------------------------------
+# A: every identifier (id, upper-case id, every name) of every rule selects that rule, in every layer
+def run_addressing(k, sb, app, pm, R):
+    rules = pm.all_rules()
+    if k >= len(rules):
+        return []
+    rid = rules[k]
+    table = {r[0]: r for r in app.rule_table()}
+    default = bool(table[rid][2])
+    idents = [rid, rid.upper()] + rule_names(app, rid)
+    out = []
+    for ident in idents:
+        o = app.invoke(["plugins", "info", ident])
+        R.count("invocations")
+        text = "".join(o.out)
+        m = re.search(r"Id\s+(\S+)", text)
+        if ident == rid.upper():
+            pass  # `plugins info` looks identifiers up case-sensitively; the property speaks of running rules, not of this lookup
+        elif o.err or not m or m.group(1).lower() != rid:
+            out.append([f"A:{k}:{ident.lower() if ident != rid.upper() else 'ID-UPPER'}:info", f"identifier-not-recognised:plugins-info", {"case": f"A:{k}", "rule": rid, "identifier": ident, "stdout": text[:200], "stderr": o.errtext[:200]}])
+        else:
+            R.count("observations_agreeing_with_model")
+        for way in ("cmd", "set", "config", "default-file", "pyproject"):
+            sb.clear_files()
+            flip = not default
+            args = []
+            if way == "cmd":
+                args = ["-e" if flip else "-d", ident]
+            elif way == "set":
+                args = ["--set", f"plugins.{ident}.enabled=$!{_b(flip).capitalize()}"]
+            elif way == "config":
+                sb.write("c.json", json.dumps({"plugins": {ident: {"enabled": flip}}}))
+                args = ["--config", "c.json"]
+            elif way == "default-file":
+                sb.write(".pymarkdown.yaml", f"plugins:\n  {ident}:\n    enabled: {_b(flip)}\n")
+            else:
+                sb.write("pyproject.toml", f"[tool.pymarkdown]\nplugins.{ident}.enabled = {_b(flip)}\n")
+            o = app.invoke(args + ["plugins", "list", "--all"])
+            R.count("invocations")
+            R.count("addressing_cases")
+            cur = None
+            for line in "".join(o.out).split("\n"):
+                w = line.split()
+                if w and w[0] == rid:
+                    cur = w[-3]
+            R.distinct.add(PL.mix("A", rid, ident, way) & 0xFFFFFFFFFFFF)
+            if o.err or cur != str(flip):
+                kind = "id" if ident == rid else ("ID-UPPER" if ident == rid.upper() else "name")
+                out.append([f"A:{k}:{ident.lower() if kind != 'ID-UPPER' else 'ID-UPPER'}:{way}", f"identifier-has-no-effect:{kind}:{way}",
+                            {"case": f"A:{k}", "rule": rid, "identifier": ident, "way": way, "wanted_enabled": flip, "plugins_list_says": cur, "stderr": o.errtext[:200]}])
+            else:
+                R.count("observations_agreeing_with_model")
+    sb.clear_files()
+    return out
+
+
+# ------------------------------------------------------------------------------------------------
+# X: strict mode may be switched on/off in every layer; an invalid value stops the run iff it is on
+BAD_VALUES = [("md013", "line_length", "notanumber", "--set"), ("md013", "line_length", "notanumber", "config"), ("md007", "indent", True, "config"), ("md029", "style", "$#3", "--set")]
+_SC = None
+
+
+def strict_cases():
+    global _SC
+    if _SC is None:
+        _SC = [(flag, setv, cfg, dflt, pyp, b) for flag in (False, True) for setv in TRI for cfg in TRI for dflt in TRI for pyp in TRI for b in range(len(BAD_VALUES))]
+    return _SC
+
+
+def run_strict(ci, sb, app, R):
+    flag, setv, cfg, dflt, pyp, b = strict_cases()[ci]
+    rid, item, val, where = BAD_VALUES[b]
+    sb.clear_files()
+    args = ["--log-level", "CRITICAL", "-e", rid]
+    if flag:
+        args.append("--strict-config")
+    if setv is not None:
+        args += ["--set", f"mode.strict-config=$!{_b(setv).capitalize()}"]
+    cdict = {}
+    if cfg is not None:
+        cdict["mode"] = {"strict-config": cfg}
+    if where == "config":
+        cdict["plugins"] = {rid: {item: val}}
+    else:
+        args += ["--set", f"plugins.{rid}.{item}={val}"]
+    if cdict:
+        sb.write("c.json", json.dumps(cdict))
+        args += ["--config", "c.json"]
+    if dflt is not None:
+        sb.write(".pymarkdown", json.dumps({"mode": {"strict-config": dflt}}))
+    if pyp is not None:
+        sb.write("pyproject.toml", f"[tool.pymarkdown]\nmode.strict-config = {_b(pyp)}\n")
+    want = flag or bool(model(None, setv, cfg, dflt, pyp, False))
+    paths = [sb.write(f"p{j}.md", d) for j, d in enumerate(PROBES)]
+    o = app.invoke(args + ["scan"] + paths)
+    R.count("invocations")
+    R.count("strict_cases")
+    pattern = ("F" if flag else "-") + "".join("-" if x is None else ("T" if x else "F") for x in (setv, cfg, dflt, pyp))
+    R.distinct.add(PL.mix("X", pattern, b) & 0xFFFFFFFFFFFF)
+    R.see("strict_patterns", pattern)
+    stopped = bool(o.err) and not o.failures and o.rc == 1
+    v = set()
+    detail = {"case": f"X:{ci}", "layers(flag,set,config,default-file,pyproject)": pattern, "invalid_value": [rid, item, val, where], "model_says_strict": want, "rc": o.rc, "stderr": o.errtext[:300], "failures": len(o.failures)}
+    if want and not stopped:
+        v.add(f"strict-on-but-run-continues:{pattern}")
+    elif not want and (o.err or o.rc not in (0, 1)):
+        v.add(f"strict-off-but-run-stops:{pattern}")
+    elif not want:
+        # lenient: must behave as the default configuration
+        base = app.invoke(["--log-level", "CRITICAL", "-e", rid, "scan"] + paths)
+        R.count("invocations")
+        if base.fail_tuples(with_file=True) != o.fail_tuples(with_file=True):
+            v.add("lenient-does-not-fall-back-to-default")
+        else:
+            R.count("observations_agreeing_with_model")
+    else:
+        R.count("observations_agreeing_with_model")
+    if v:
+        return [";".join(sorted(v)), detail]
+    return None
+
+
 def run_items(items, job):
     from vf import app, pm
 
@@ -315,6 +438,13 @@ def run_items(items, job):
             res = run_precedence(int(ci), precedence_cases()[int(ci)], sb, app, R)
             if res:
                 R.viol.append([key, res[0], res[1]])
+        elif cls == "X":
+            res = run_strict(int(ci), sb, app, R)
+            if res:
+                R.viol.append([key, res[0], res[1]])
+        elif cls == "A":
+            for vk, sig, detail in run_addressing(int(ci), sb, app, pm, R):
+                R.viol.append([vk if key.startswith("A:") else key, sig, detail])
         else:
             for vk, sig, detail in run_settings(int(ci), sb, app, pm, R):
                 R.viol.append([vk if key.startswith("S:") else key, sig, detail])
